@@ -232,6 +232,10 @@ func (m *LeaseManager) getOrCreateSession(ctx context.Context) (*concurrency.Ses
 	if m.session != nil {
 		select {
 		case <-m.session.Done():
+			// A session installed by a concurrent caller has already expired.
+			// Its monitor will no longer match m.session once it is replaced
+			// below, so the ownership acquired under it must be dropped here.
+			m.owned = make(map[string]int64)
 		default:
 			s := m.session
 			m.mu.Unlock()
